@@ -175,6 +175,13 @@ static std::vector<CompDef> build_components()
   add("dipoleAngle", T_SCALAR, "dipoleAngle {\n@OPTS@group1 {\n@G0@}\ngroup2 {\n@G1@}\ngroup3 {\n@G2@}\n}\n", {A, B, Cg}, true, true);
   add("dihedral", T_SCALAR, "dihedral {\n@OPTS@group1 {\n@G0@}\ngroup2 {\n@G1@}\ngroup3 {\n@G2@}\ngroup4 {\n@G3@}\n}\n",
       {A, B, {7}, {8}}, true, true);
+  // periodic components with a non-default centre of the wrapping interval (values and differences are reduced to
+  // different images when wrapAround is not zero)
+  add("dihedral/wrapAround180", T_SCALAR, "dihedral {\n@OPTS@wrapAround 180.0\ngroup1 {\n@G0@}\ngroup2 {\n@G1@}\ngroup3 {\n@G2@}\ngroup4 {\n@G3@}\n}\n",
+      {A, B, {7}, {8}}, true, true);
+  add("dihedral/wrapAround-120", T_SCALAR, "dihedral {\n@OPTS@wrapAround -120.0\ngroup1 {\n@G0@}\ngroup2 {\n@G1@}\ngroup3 {\n@G2@}\ngroup4 {\n@G3@}\n}\n",
+      {A, B, {7}, {8}}, true, true);
+  add("distanceZ/period+wrapAround", T_SCALAR, "distanceZ {\n@OPTS@axis ( 0.3 , -0.5 , 0.8 )\nperiod 5.0\nwrapAround 2.5\nmain {\n@G0@}\nref {\n@G1@}\n}\n", {A, B}, true, true);
   add("hBond", T_SCALAR, "hBond {\n@OPTS@acceptor 1\ndonor 8\ncutoff 3.3\n}\n", {}, false, false);
   {
     CompDef *a = add("alpha", T_SCALAR, "alpha {\n@OPTS@prefix alpha_\n}\n", {}, false, false);
